@@ -56,3 +56,11 @@ func init() {
 			{Name: "layout", Run: "^TestLayout$", Checks: [2]int{3000, 40000}, Shards: [2]int{4, 16}},
 		}})
 }
+
+func init() {
+	reg(PropCfg{ID: "C11", Pkg: "c11", Level: "exploration",
+		Rule: "exhaustive enumeration of nestings of {loop, while, for-range, for-list, block expression, if-then, if-else, match arm, match default, try body, catch body, function call, lambda call} to depth 2 (quick) / 3 (thorough) around each exit {break, continue, return value, return, throw caught, throw uncaught, fatal division, fatal index, none}; each program has markers before/after the exit, counters, locals printed afterwards, an outer try that must not fire, and runs the construct twice; VM and interpreter output/outcome are compared with the reference semantics; all enumerated cases are non-trivial by construction (the reference trace executes the exit); distinct by (context path, exit)",
+		Jobs: []Job{
+			{Name: "nesting", Run: "^TestTableNesting$", Shards: [2]int{4, 16}},
+		}})
+}
